@@ -43,7 +43,14 @@ func genHdrCase(t *rapid.T) HdrCase {
 
 func checkHdrCase(c HdrCase) error {
 	key, _ := json.Marshal(c)
-	pbt.Note(key, true, fmt.Sprintf("datagrams=%d", len(c.Sizes)), fmt.Sprintf("buffer=%d", max(512, c.ConnUDPSize)), fmt.Sprintf("withHdr=%v", c.WithHdr))
+	cl := []string{fmt.Sprintf("datagrams=%d", len(c.Sizes)), fmt.Sprintf("buffer=%d", max(512, c.ConnUDPSize)), fmt.Sprintf("withHdr=%v", c.WithHdr)}
+	for _, s := range c.Sizes {
+		if s == max(512, c.ConnUDPSize) {
+			cl = append(cl, "datagram-of-exactly-the-buffer-size", fmt.Sprintf("datagram-of-exactly-the-buffer-size=%d", s))
+			break
+		}
+	}
+	pbt.Note(key, true, cl...)
 	pbt.Sample("dgram-readmsgheader", c)
 	if len(c.Sizes) != len(c.Scribble) {
 		return fmt.Errorf("malformed case")
